@@ -33,8 +33,24 @@ def _ev(op, ok, r, **kw):
     return d
 
 
+_SHADOW = dict(rle=None, alone=None, bad=[], n=0)
+
+
+def _shadow_probe():
+    """another run-length index is in use at the same time (one per frame type of a file): it answers as it does alone"""
+    sh = _SHADOW
+    if sh['rle'] is None:
+        return
+    sh['n'] += 1
+    r = sh['rle']
+    now = (list(r.values()), r.value(4), r.largest_le(21), r.num_values(), len(r))
+    if now != sh['alone'] and len(sh['bad']) < 3:
+        sh['bad'].append('%r, alone %r' % (now, sh['alone']))
+
+
 def _queries(rle, vals, rng=None, conv=None, allq=True):
     """All queries on the current object; conv maps a result back to the integer lattice (float variant)."""
+    _shadow_probe()
     c = conv or (lambda x: x)
     n = len(vals)
     evs = []
@@ -155,6 +171,8 @@ def run(ctx):
                 (maxlen, maxrecs))
     traces = []
     meta = []
+    sh_ = Rle.create_rle([3, 5, 7, 20, 22, 24, 24])
+    _SHADOW.update(rle=sh_, alone=(list(sh_.values()), sh_.value(4), sh_.largest_le(21), sh_.num_values(), len(sh_)), bad=[], n=0)
 
     def nontrivial(seq):
         if len(seq) < 3:
@@ -327,6 +345,9 @@ def run(ctx):
     ctx.assumptions += ['indices and frame numbers are valid ones; largest_le only on non-decreasing sequences with a '
                         'stored value <= query', 'record positions strictly increasing, frames >= 1',
                         'float results: |result - added| <= (n+4)*eps*max(|x|, |offset|, (n+4)|stride|) (relative: rounding of at most n additions)']
+    for b_ in _SHADOW['bad'][:1]:
+        ctx.fail('a run-length index in use alongside the ones under test answers %s' % b_, dict(kind='two-objects'), sig=dict(kind='two-objects'))
+    ctx.notes['shadow_index_probes'] = _SHADOW['n']
     ctx.explanation = 'design refinement by TLC; every real-object history validated event by event against RleAbs'
 
 
